@@ -89,3 +89,59 @@ Example C19_nonvacuous :
   snd (step d (OQuery SFresh 0 QInit)) = OutInit false [1] false /\
   snd (step (fst (run d [OBegin [0%nat]; OInitDone 0 1; OCommit 1])) (OQuery SFresh 0 QInit)) = OutInit true [] true.
 Proof. split; vm_compute; reflexivity. Qed.
+
+(* ==== interleaved part: all schedules of the commit protocol (DB/Model.v; DB/Watch.v, DB/Reach.v) ==========
+   `reach ntab actors sched = DB.Model.run (init_st ntab actors) sched` for ANY schedule of ANY well-formed
+   system. tv_init = Some (w, pending) is the tableInitialization of a committed entry: w is the channel
+   handed out by Initialized(); the commit that empties `pending` publishes tv_init = None and queues w in
+   a_initclose, which is closed after the root store and the table unlock. (Module: DB/Model.v and
+   Table/Model.v both define `run` and `step`.) *)
+From SV Require DB.Model DB.Invariants DB.Visibility DB.Channels DB.Watch DB.Reach.
+Module C19_DB.
+Import SV.DB.Model SV.DB.Invariants SV.DB.Visibility SV.DB.Channels SV.DB.Watch SV.DB.Reach.
+Local Open Scope nat_scope.
+
+(* while the committed entry of a table has pending initializers its init channel is open *)
+Theorem C19_init_watch_open_while_pending : forall ntab actors sched t v w, wf_system ntab actors ->
+  let s := reach ntab actors sched in
+  nth_error (s_root s) t = Some v -> In w (s_closed s) ->
+  tv_watch v <> w /\ forall p, tv_init v <> Some (w, p).
+Proof. exact published_open_reachable. Qed.
+Print Assumptions C19_init_watch_open_while_pending.
+
+(* SIGNALLED AFTER VISIBILITY: if the init channel w that the committed root handed out for table t after
+   schedule s1 is closed after s1 ++ s2, then a root in which t is initialized (tv_init = None) was stored
+   at some point sa of s2 - strictly before the close *)
+Theorem C19_init_closed_after_visible : forall ntab actors s1 s2 t v w p, wf_system ntab actors ->
+  nth_error (s_root (reach ntab actors s1)) t = Some v -> tv_init v = Some (w, p) ->
+  In w (s_closed (reach ntab actors (s1 ++ s2))) ->
+  exists sa sb v1, s2 = sa ++ sb /\ nth_error (s_root (reach ntab actors (s1 ++ sa))) t = Some v1 /\ tv_init v1 = None.
+Proof. exact init_closed_after_visible_reachable. Qed.
+Print Assumptions C19_init_closed_after_visible.
+
+(* channels are closed only by the notify / init-close steps of a committing writer that has already stored
+   its root; the init-close step closes exactly a_initclose, none of which the root still hands out *)
+Theorem C19_init_close_step : forall ntab actors sched i, wf_system ntab actors ->
+  let s := reach ntab actors sched in
+  s_closed (step s i) = s_closed s \/
+  exists a cl, nth_error (s_actors s) i = Some a /\ committed a = true /\
+    s_closed (step s i) = cl ++ s_closed s /\ s_root (step s i) = s_root s /\
+    ((a_pc a = PRootUnlocked /\ cl = a_notify a) \/ (a_pc a = PTabsUnlocked /\ cl = a_initclose a)) /\
+    forall w, In w cl -> ~ rch (s_root s) w.
+Proof. exact close_after_store_reachable. Qed.
+Print Assumptions C19_init_close_step.
+
+Example C19_nonvacuous_interleaved :
+  let acts := [(1%N, KWriter [0] [] true [(0, 7%N)] []); (2%N, KWriter [0] [0] true [] [(0, 7%N)])] in
+  wf_system 1 acts /\
+  map tv_init (s_root (reach 1 acts (repeat 0 12))) = [Some (1%N, [7%N])] /\
+  map tv_init (s_root (reach 1 acts (repeat 0 12 ++ repeat 1 8))) = [None] /\
+  s_closed (reach 1 acts (repeat 0 12 ++ repeat 1 10)) = [0%N] /\
+  s_closed (reach 1 acts (repeat 0 12 ++ repeat 1 12)) = [1%N; 0%N].
+Proof.
+  split; [split|].
+  - intros ik [<-|[<-|[]]]; cbn; repeat split; try (intros x Hx; cbn in Hx; intuition (subst; cbn; auto)).
+  - cbn. repeat constructor; cbn; intuition discriminate.
+  - vm_compute. repeat split; reflexivity.
+Qed.
+End C19_DB.
